@@ -35,6 +35,11 @@ fn main() {
             let Some(p) = props.iter().find(|p| p.id() == id) else { usage() };
             worker_main(p.as_ref(), tier, seed.parse().unwrap_or(0), index.parse().unwrap_or(0), per.parse().unwrap_or(0))
         }
+        Some("--from-fuzz") => {
+            // --from-fuzz <target> <artifact> [property]
+            let (Some(t), Some(f)) = (args.get(1), args.get(2)) else { usage() };
+            hpo_verif::fuzzdec::from_fuzz(t, Path::new(f), args.get(3).map(|s| s.as_str()))
+        }
         Some("--replay") => {
             let Some(f) = args.get(1) else { usage() };
             replay_file(&props, Path::new(f))
